@@ -47,6 +47,15 @@ func scaleCases(tier string) []scalekit.Case {
 			out = append(out, scalekit.Case{Shape: "grouping-named-prefix-plus-name", N: n, V: v})
 		}
 	}
+	// N loaded revisions of the using module, each naming its own revision of the defining module
+	// (variant 0) or giving the prefix to another module (1); a grouping defined in every kind of
+	// statement that may hold one and used from inside it (variant = kind)
+	for n := 2; n <= 4; n++ {
+		out = append(out, scalekit.Case{Shape: "users-in-several-revisions", N: n, V: 0}, scalekit.Case{Shape: "users-in-several-revisions", N: n, V: 1})
+	}
+	for v := range groupingScopes {
+		out = append(out, scalekit.Case{Shape: "grouping-in-each-kind-of-scope", N: 1, V: v})
+	}
 	// n sibling scopes each defining a grouping of one name and using it from inside, crossed with how
 	// the uses statements spell the name (variant bits: 1 own prefix, 2 a top-level grouping of that name
 	// exists as well, 4 written in a submodule, 8 every second scope spells it the other way)
@@ -89,8 +98,67 @@ func sortStrings(a []string) {
 	}
 }
 
+// groupingScopes: where RFC 7950 lets a grouping be defined, with a place below from which it is used;
+// %s stands for the grouping and the uses statement.
+var groupingScopes = []string{
+	`container c { GROUPING container inner { USES } }`,
+	`list l { key k; leaf k { type string; } GROUPING container inner { USES } }`,
+	`grouping outer { GROUPING container inner { USES } } container c { uses outer; }`,
+	`rpc r { GROUPING input { USES } output { container o { USES } } }`,
+	`rpc r { input { GROUPING container inner { USES } } }`,
+	`rpc r { output { GROUPING container inner { USES } } }`,
+	`notification n { GROUPING container inner { USES } }`,
+	`container c { action a { GROUPING input { USES } output { USES } } }`,
+	`container c { action a { input { GROUPING container inner { USES } } } }`,
+	`container c { notification n { GROUPING USES } }`,
+	`list l { key k; leaf k { type string; } action a { GROUPING output { container inner { USES } } } }`,
+	`grouping outer { container c { action a { GROUPING input { USES } } } } container user { uses outer; }`,
+}
+
 func checkScale(cs scalekit.Case) scalekit.Verdict {
 	switch cs.Shape {
+	case "grouping-in-each-kind-of-scope":
+		body := strings.ReplaceAll(strings.ReplaceAll(groupingScopes[cs.V], "GROUPING", `grouping timing { leaf delay { type int8; } leaf-list phase { type string; } }`), "USES", `uses timing;`)
+		files := []dump.File{{Name: "lib.yang", Text: `module lib { yang-version 1.1; namespace "urn:lib"; prefix lib; ` + body + ` }`}}
+		ms, errs, lerr := scalekit.Load(files, false)
+		if lerr != nil || len(errs) > 0 {
+			return scalekit.Bad("spurious-errors", "loads and processes: a grouping may be defined there", fmt.Sprint(lerr, dump.Errors(errs)))
+		}
+		var sb strings.Builder
+		dump.Entry(&sb, yang.ToEntry(ms.Modules["lib"]), "", dump.Options{}, map[*yang.Entry]bool{})
+		if n := strings.Count(sb.String(), " delay kind=Leaf"); n != strings.Count(body, "uses timing;") {
+			return scalekit.Bad("copies-missing", fmt.Sprintf("%d copies of leaf delay", strings.Count(body, "uses timing;")), fmt.Sprintf("%d\n%s", n, sb.String()))
+		}
+	case "users-in-several-revisions":
+		var files []dump.File
+		for r := 0; r < cs.N; r++ {
+			dname := "def"
+			drev := fmt.Sprintf(" revision 202%d-01-01;", r)
+			pin := fmt.Sprintf(" revision-date 202%d-01-01;", r)
+			if cs.V == 1 {
+				dname, drev, pin = fmt.Sprintf("def%d", r), "", ""
+			}
+			files = append(files,
+				dump.File{Name: fmt.Sprintf("def-%d.yang", r), Text: fmt.Sprintf(`module %s { namespace "urn:%s"; prefix d;%s grouping endpoint { leaf port { type uint16; default %d; } container tls%d { leaf sni { type string; } } } }`, dname, dname, drev, 80+r, r)},
+				dump.File{Name: fmt.Sprintf("user-%d.yang", r), Text: fmt.Sprintf(`module user { namespace "urn:user"; prefix user; revision 202%d-06-01; import %s { prefix p;%s } container server { uses p:endpoint; } container second { uses p:endpoint; } }`, r, dname, pin)})
+		}
+		for _, rev := range []bool{false, true} {
+			ms, errs, lerr := scalekit.Load(files, rev)
+			if lerr != nil || len(errs) > 0 {
+				return scalekit.Bad("spurious-errors", "loads and processes", fmt.Sprint(lerr, dump.Errors(errs)))
+			}
+			for r := 0; r < cs.N; r++ {
+				u := yang.ToEntry(ms.Modules[fmt.Sprintf("user@202%d-06-01", r)])
+				for _, c := range []string{"server", "second"} {
+					e := scalekit.Down(u, c)
+					if e == nil || e.Dir["port"] == nil || fmt.Sprint(e.Dir["port"].Default) != fmt.Sprintf("[%d]", 80+r) || e.Dir[fmt.Sprintf("tls%d", r)] == nil || len(e.Dir) != 2 {
+						var sb strings.Builder
+						dump.Entry(&sb, e, "", dump.Options{}, map[*yang.Entry]bool{})
+						return scalekit.Bad("copy-of-another-revisions-grouping", fmt.Sprintf("user@202%d-06-01/%s: port default %d, container tls%d", r, c, 80+r, r), sb.String())
+					}
+				}
+			}
+		}
 	case "wide-copy":
 		for _, rev := range []bool{false, true} {
 			ms, errs, lerr := scalekit.Load(scale.Wide(cs.N), rev)
